@@ -222,6 +222,30 @@ def variants_outcomes(g, entries, texts, sa, extends_parent=None):
                 sut.forget(dname)
             else:
                 out['derived'] = 'compile:%s' % (derr[1] if len(derr) > 1 else derr[0])
+            # the parent as a module made from its EMITTED source (what a project that ships generated parsers
+            # has under that name), and a child compiled on top of it
+            import types
+            saved = sys.modules.get(name)
+            try:
+                pm = types.ModuleType(name)
+                exec(compile(mods['named+source']._source_code, name + '.py', 'exec'), pm.__dict__)
+                sys.modules[name] = pm
+                dn = sut.fresh_name('vfc11e_')
+                dm, derr = sut.compile_grammar('grammar %s extends %s\nExtraRuleOfDerived = "zz"\n' % (dn, name))
+                if dm is None:
+                    out['derived-on-emitted-parent'] = 'compile:%s' % (derr[1] if len(derr) > 1 else derr[0])
+                else:
+                    rows = []
+                    for e in entries:
+                        fn = sut.entry(dm, e)
+                        rows.append([norm(sut.run(dm, None, t, budget=diff.QUICK_BUDGET, fn=fn)) for t in texts])
+                    out['derived-on-emitted-parent'] = rows
+                    sut.forget(dn)
+            except Exception as e:
+                out['derived-on-emitted-parent'] = 'emitted parent source does not execute: %s' % type(e).__name__
+            finally:
+                if saved is not None:
+                    sys.modules[name] = saved
             # a derived grammar with an (anonymous) ignore statement of its own next to the inherited ones:
             # the same two descriptions, with and without include_source
             if g.ignores:
@@ -252,7 +276,7 @@ def compare(out):
     for label, rows in out.items():
         if label == 'unnamed':
             continue
-        if label in ('derived', 'standalone-derived'):
+        if label in ('derived', 'standalone-derived', 'derived-on-emitted-parent'):
             ref = out.get('named')
         elif label == 'derived-ignore':
             continue
